@@ -23,7 +23,9 @@ def out_event_docs(rng, n):
         ev = G.event(rng)
         ev[1] = 'out'
         kind = rng.choice(['reply', 'outparam', 'both', 'legal'])
-        ev[2] = ['void'] if kind in ('outparam', 'legal') else rng.choice([['Result'], ['bool'], ['My', 'T']])
+        # non-void reply types: ordinary names, and names that look like `void` (parts of it, other case, qualified)
+        ev[2] = ['void'] if kind in ('outparam', 'legal') else rng.choice([['Result'], ['bool'], ['My', 'T'], ['id'], ['v'], ['oid'], ['vo'], ['o'], ['d'],
+                                                                             ['Void'], ['VOID'], ['void_'], ['voidx'], ['My', 'void'], ['void', 'T'], ['i']])
         fs = [G.formal(rng, allow_out=False) for _ in range(rng.choice([0, 1, 3]))]
         if kind in ('outparam', 'both'):
             fs.insert(rng.randint(0, len(fs)), [rng.choice(['o', 'x']), G.ids(rng, 1, 2), 'out'])
